@@ -170,7 +170,7 @@ def check(run):
         return tlc(D, "MC_MetricsConc", cfg=p, workers=workers, timeout=3000, xmx="6g", metadir=os.path.join(wd, "md_conc_" + tag), env=JVM_LIGHT)
 
     ex_f = [(c, pool.submit(run_explorer, wd, c, thorough)) for c in EXPLORER[run.tier]]
-    cs_f = [((name, kind, mo, mr), pool.submit(conc_job, "st_" + kind, kind, mo, mr, "StoredFieldsOk QuiescentExact", 4 if thorough else 2))
+    cs_f = [((name, kind, mo, mr), pool.submit(conc_job, "st_" + kind, kind, mo, mr, "StoredFieldsOk QuiescentExact OverflowWithinCountOk", 4 if thorough else 2))
             for name, kind, mo, mr in CONC[run.tier]]
     ci_f = [(inv, pool.submit(conc_job, inv, "KindPull1", 2, 2, inv, 2)) for inv in ("InfBucketLowOk", "InfBucketMonotoneOk", "InfBucketHighOk")]
     # seeded random real-space histories and the concurrent driver do not depend on TLC output: start them now
